@@ -513,6 +513,12 @@ def run_scriptplan(tjp_file: str, output_dir: Optional[str] = None) -> tuple[boo
                 error_output = stderr_capture.getvalue()
                 return (False, error_output or "Report generation failed")
 
+    except SystemExit:
+        # MessageHandler.error() terminates the interpreter when no trap is set up;
+        # for programmatic use that is a failed run, reported with the captured message
+        error_output = stderr_capture.getvalue()
+        return (False, error_output or "Report generation failed")
+
     except Exception as e:
         error_output = stderr_capture.getvalue()
         return (False, error_output or str(e))
